@@ -1,4 +1,5 @@
 import Evl.Props.C14
+import Evl.Model.JsonParse
 /-!
 # C14, continued — the stored line reads back
 
@@ -9,61 +10,6 @@ identity on valid UTF-8, in particular on ASCII), and stops exactly at the closi
 the stored line: its `event_type` member decodes back to the event's type.
 -/
 namespace Evl.Json
-
-def hexVal (c : Nat) : Option Nat :=
-  if 48 ≤ c ∧ c ≤ 57 then some (c - 48)
-  else if 97 ≤ c ∧ c ≤ 102 then some (c - 87)
-  else if 65 ≤ c ∧ c ≤ 70 then some (c - 55)
-  else none
-
-/-- UTF-8 of a code point of the basic multilingual plane -/
-def utf8Enc (cp : Nat) : Bytes :=
-  if cp < 0x80 then [cp]
-  else if cp < 0x800 then [0xC0 + cp / 64, 0x80 + cp % 64]
-  else [0xE0 + cp / 4096, 0x80 + cp / 64 % 64, 0x80 + cp % 64]
-
-def simpleEsc (e : Nat) : Option Nat :=
-  if e = 34 then some 34 else if e = 92 then some 92 else if e = 47 then some 47
-  else if e = 98 then some 8 else if e = 102 then some 12 else if e = 110 then some 10
-  else if e = 114 then some 13 else if e = 116 then some 9 else none
-
-/-- reader state: inside the string; after a backslash; inside `\uXXXX` with `k` digits to go -/
-inductive RS | normal | esc | hex (k acc : Nat)
-
-def pre (p : Bytes) : Option (Bytes × Bytes) → Option (Bytes × Bytes)
-  | some (s, rest) => some (p ++ s, rest)
-  | none => none
-
-/-- a JSON string reader, started after the opening quote: the decoded bytes and what follows the
-closing quote; `none` on malformed input (raw control character, bad escape, unterminated) -/
-def readStr : RS → Bytes → Option (Bytes × Bytes)
-  | _, [] => none
-  | .normal, b :: r =>
-    if b = 34 then some ([], r)
-    else if b = 92 then readStr .esc r
-    else if b < 0x20 then none
-    else pre [b] (readStr .normal r)
-  | .esc, e :: r =>
-    if e = 117 then readStr (.hex 4 0) r
-    else match simpleEsc e with
-      | some x => pre [x] (readStr .normal r)
-      | none => none
-  | .hex k acc, c :: r =>
-    match hexVal c with
-    | none => none
-    | some v => if k = 1 then pre (utf8Enc (acc * 16 + v)) (readStr .normal r) else readStr (.hex (k - 1) (acc * 16 + v)) r
-
-/-- what a reader gets back: the string with every invalid UTF-8 byte replaced by U+FFFD -/
-def sanitize : Bytes → Bytes
-  | [] => []
-  | b :: rest =>
-    if b < 0x80 then b :: sanitize rest
-    else
-      let n := utf8Len (b :: rest)
-      if n == 0 then [0xEF, 0xBF, 0xBD] ++ sanitize rest
-      else (b :: rest).take n ++ sanitize (rest.drop (n - 1))
-termination_by s => s.length
-decreasing_by all_goals (simp only [List.length_cons, List.length_drop]; omega)
 
 theorem pre_pre (a b : Bytes) (o : Option (Bytes × Bytes)) : pre a (pre b o) = pre (a ++ b) o := by
   cases o with
